@@ -62,6 +62,10 @@ func (g *tryGen) body(depth int) MalType {
 		}
 		return call1("map", ls(sy("fn"), vc(sy("x")), call1("throw", sy("x"))), vc(g.r.intn(3), 9)) // via a builtin callback
 	case 6:
+		if r.chance(1, 2) {
+			// arity error of a user function: the error value a handler sees (its text included) is part of what the program computes
+			return []MalType{ls(sy("f-throw")), ls(sy("f-throw"), 1, 2), ls(ls(sy("fn"), vc(sy("a"), sy("b")), sy("a")), 1)}[r.intn(3)]
+		}
 		return call1("+", 1, "s") // type error (reflect panic recovered)
 	case 7, 8:
 		return call1("trace!", r.intn(9))
@@ -83,7 +87,7 @@ func (g *tryGen) handler(depth int) []MalType {
 	for i, n := 0, r.intn(2); i < n; i++ {
 		out = append(out, call1("trace!", r.intn(9)))
 	}
-	switch r.intn(9) {
+	switch r.intn(11) {
 	case 0:
 		out = append(out, sy("e"))
 	case 1:
@@ -102,6 +106,8 @@ func (g *tryGen) handler(depth int) []MalType {
 		}
 	case 6:
 		out = append(out, call1("quote", sy("e"))) // the symbol e as a value: must not be looked up again
+	case 9, 10:
+		out = append(out, call1("str", sy("e"))) // the TEXT of the caught error / value is part of what the program computes
 	case 7:
 		out = append(out, call1("list", call1("quote", sy("trace!")), 7)) // (trace! 7) as data
 	default:
@@ -338,7 +344,7 @@ func (g *qqGen) macroProgram() (defs []MalType, callForm MalType) {
 		ls(sy("def"), sy("x"), 7), ls(sy("def"), sy("ys"), call1("list", 1, 2)), ls(sy("def"), sy("vs"), vc(3, 4)),
 		ls(sy("def"), sy("f1"), ls(sy("fn"), vc(sy("a")), call1("trace!", call1("+", sy("a"), 1)))),
 	}
-	switch r.intn(13) {
+	switch r.intn(14) {
 	case 9: // expansion is a VECTOR literal with non-constant elements: it still has to be evaluated
 		defs = append(defs, ls(sy("defmacro"), sy("m"), ls(sy("fn"), vc(sy("a"), sy("b")),
 			call1("quasiquote", vc(call1("unquote", sy("a")), call1("unquote", sy("b")), sy("x"))))))
@@ -388,6 +394,11 @@ func (g *qqGen) macroProgram() (defs []MalType, callForm MalType) {
 			ls(sy("defmacro"), sy("m"), ls(sy("fn"), vc(sy("a"), sy("b")),
 				call1("quasiquote", ls(sy("inner"), call1("unquote", sy("a")), call1("unquote", sy("b")), 0)))))
 		callForm = ls(sy("m"), call1("trace!", 1), call1("trace!", 4))
+	case 13: // a macro whose NAME is that of a special form: the macro test comes first, for the call and for macroexpand alike
+		name := r.pick([]string{"let", "try", "if", "def", "fn"})
+		defs = append(defs, ls(sy("defmacro"), sy(name), ls(sy("fn"), vc(sy("a"), sy("b")),
+			call1("quasiquote", ls(sy("list"), kw(name), call1("unquote", sy("b")))))))
+		callForm = ls(sy(name), vc(sy("x"), 1), call1("trace!", 2))
 	case 5: // an ordinary function is unaffected
 		defs = append(defs, ls(sy("def"), sy("m"), ls(sy("fn"), vc(sy("a"), sy("b")), call1("list", sy("a"), sy("b")))))
 		callForm = ls(sy("m"), call1("trace!", 1), call1("trace!", 2))
@@ -615,6 +626,9 @@ func multiKeyCase(r *rng) MalType {
 		return call1("hash-set", pickOwn(), pickOwn(), pickOwn())
 	case 5:
 		m2 := map[string]MalType{pickOwn().(string): 99, "ʞnew": 7}
+		if r.chance(1, 2) {
+			return call1("merge", q(HashMap{Val: m2}), hm) // the second map is the bigger one and wins on shared keys
+		}
 		return call1("merge", hm, q(HashMap{Val: m2}))
 	default:
 		return call1("count", call1("dissoc", call1("assoc", hm, kw("x"), 1, kw("y"), 2), kw("x"), pickOwn(), kw("y")))
@@ -705,7 +719,7 @@ func (g *tailGen) wrap(e MalType, depth int) MalType {
 		return e
 	}
 	inner := g.wrap(e, depth-1)
-	switch g.r.intn(12) {
+	switch g.r.intn(13) {
 	case 9:
 		// one-armed `if`: the then-branch is a tail position too
 		return ls(sy("if"), []MalType{true, 1, call1("<", 0, 1), kw("k")}[g.r.intn(4)], inner)
@@ -723,6 +737,18 @@ func (g *tailGen) wrap(e MalType, depth int) MalType {
 		default:
 			return ls(sy("or"), inner)
 		}
+	case 12:
+		// the operator of the tail call is itself an expression yielding the closure
+		if l, ok := e.(List); ok && len(l.Val) > 0 && depth == 1 {
+			if h, ok := l.Val[0].(Symbol); ok {
+				op := []MalType{
+					ls(sy("if"), true, h, h), ls(sy("do"), h), call1("first", call1("list", h)),
+					call1("get", HashMap{Val: map[string]MalType{kw("f"): h}}, kw("f")), call1("deref", call1("atom", h)),
+				}[g.r.intn(5)]
+				return List{Val: append([]MalType{op}, l.Val[1:]...)}
+			}
+		}
+		return inner
 	case 11:
 		// closures of every parameter shape, applied in tail position
 		switch g.r.intn(3) {
@@ -904,6 +930,10 @@ func init() {
 	register("try", &evalEngine{gen: func(r *rng, n int, tier string, emit func(string)) {
 		for i := 0; i < n; i++ {
 			g := &tryGen{r: r}
+			if i%3 == 2 {
+				emit(evalPayloadD([]string{"e"}, g.program())) // the caller's context carries a (far) deadline
+				continue
+			}
 			emit(evalPayload(-1, "-", []string{"e"}, g.program()))
 		}
 	}})
